@@ -55,6 +55,10 @@ MUT = [
     ("remove-last-instead-of-first", "t", "oplog.Documents.Remove(oplog.Documents.List[0])", "oplog.Documents.Remove(oplog.Documents.List[len(oplog.Documents.List)-1])"),
     ("drop-one-less", "t", "for i := 0; i < dropped; i++ {\n		oplog.Documents.Remove", "for i := 1; i < dropped; i++ {\n		oplog.Documents.Remove"),
     ("drops-at-most-one", "t", "		dropped++\n	}\n", "		dropped++\n		break\n	}\n"),
+    ("in-place-no-clones", "t", "	// clone catalog\n	clone := t.catalog.Clone()\n\n	// clone oplog\n	oplog := clone.Namespaces[Oplog].Clone()\n	clone.Namespaces[Oplog] = oplog\n\n	// derive",
+     "	clone := t.catalog\n	oplog := t.catalog.Namespaces[Oplog]\n\n	// derive"),
+    ("in-place-when-dirty", "t", "	// clone catalog\n	clone := t.catalog.Clone()\n\n	// clone oplog\n	oplog := clone.Namespaces[Oplog].Clone()\n	clone.Namespaces[Oplog] = oplog\n\n	// derive",
+     "	// a dirty transaction already works on its own copies\n	clone := t.catalog\n	oplog := clone.Namespaces[Oplog]\n	if !t.dirty {\n		clone = t.catalog.Clone()\n		oplog = clone.Namespaces[Oplog].Clone()\n		clone.Namespaces[Oplog] = oplog\n	}\n\n	// derive"),
     ("commit-swaps-sizes", "e", "txn.Clean(e.opts.MinOplogSize, e.opts.MaxOplogSize,", "txn.Clean(e.opts.MaxOplogSize, e.opts.MinOplogSize,"),
     ("commit-cleans-after-store", "e", "	// clean oplog\n	txn.Clean(e.opts.MinOplogSize, e.opts.MaxOplogSize, e.opts.MinOplogAge, e.opts.MaxOplogAge)\n\n	// write catalog\n	verifAt(\"commit.store\")\n	err := e.store.Store(txn.Catalog())",
      "	// write catalog\n	verifAt(\"commit.store\")\n	err := e.store.Store(txn.Catalog())\n	txn.Clean(e.opts.MinOplogSize, e.opts.MaxOplogSize, e.opts.MinOplogAge, e.opts.MaxOplogAge)"),
@@ -86,6 +90,8 @@ for name, which, old, new in MUT:
         r = json.load(open(out))
     except Exception as ex:
         print(name, "NO RESULT", p.stdout[-300:], p.stderr[-600:]); continue
+    if os.environ.get("RETAIN_MUT_KEEP"):
+        shutil.copy(out, os.path.join(os.environ["RETAIN_MUT_KEEP"], "mut-%s.json" % name))
     classes = {k[5:]: v for k, v in r["distribution"].items() if k.startswith("viol:")}
     print("%-30s disagreements=%-6d violations=%-6d %s" % (name, r["n_disagreements"], r["n_violations"], classes))
 shutil.rmtree(TMP, ignore_errors=True)
